@@ -82,6 +82,12 @@ import JdProofs.V1ListDiffPatch
 import JdProofs.PathSites
 import JdProofs.V1MergeRender
 import JdProofs.V1SetDiffPatch
+import JdProofs.V1KeysDiffPatchF
+import JdProofs.V1KeysDiffPatchE
+import JdProofs.V1KeysDiffPatchD
+import JdProofs.V1KeysDiffPatchC
+import JdProofs.V1KeysDiffPatchB
+import JdProofs.V1KeysDiffPatchA
 
 set_option autoImplicit false
 
@@ -387,5 +393,55 @@ example : V1.readDiffM NativeRT.exCodec "@ [\"a\"]\n- [null]\n+ true\n" =
 theorem v1_stored_paths_are_copies :
     (Gen.pathSites.filter (fun s => Jd.PathSites.isV1 s && !Jd.PathSites.isWrite s)).all Jd.PathSites.ok = true :=
   Jd.PathSites.v1_diff_paths_ok
+
+/-! ## v1: SET / MULTISET with MERGE, SET + Setkeys, MULTISET + Setkeys, MERGE + Setkeys
+   — proofs in JdProofs/V1KeysDiffPatchA … F.lean (ns `Jd.V1K`)
+
+   `V1K.MMode m o`: MERGE present, the array reading of `m` is that of `o` ∈ {set, mset}, no setkeys, precision 0.
+   `V1K.KMode m ks`: SET present, `Setkeys(ks)`, `ks ≠ []`, no MERGE, precision 0. `V1K.KeysHyp m ks a b`: seven decidable
+   hypotheses; six are shown necessary by witnesses that replay on the Go library (`V1K.Witness.*`), `ksep` is a pure
+   64-bit collision class. `hk` ("every object member of an array of `a` carries at least one set key") is needed:
+   a member with none of the keys is addressed by the whole member, the diff applies in memory only through
+   aliasing and fails through the text — known finding KF-C17-keyless (`keyless_member_fails_through_text`). -/
+
+/-- **C17, v1 SET+MERGE / MULTISET+MERGE in memory** (b may hold nulls) -/
+theorem v1_merge_diff_patch_setmodes (F : FloatEq0) (L : FloatLaws) {m : V1.Metas} {o : Opts}
+    (M : Jd.V1K.MMode m o) (a b : Json) (ha : a.setDoc = true) (hb : b.setDoc = true)
+    (hb' : Jd.DPL.memOK b = true) (HF : Jd.V1S.HashFaithful m o (subterms a ++ subterms b)) :
+    ∃ r, V1.patchM a (V1.diffM m a b) = .ok r ∧ V1.equals m r b = true ∧ equivB o r b = true :=
+  Jd.V1K.v1_merge_diff_patch_setmodes F L M a b ha hb hb' HF
+
+/-- … and the diff is empty exactly when Equals holds -/
+theorem v1_merge_diff_empty_iff_equals_setmodes (F : FloatEq0) (L : FloatLaws) {m : V1.Metas} {o : Opts}
+    (M : Jd.V1K.MMode m o) (a b : Json) (ha : a.setDoc = true) (hb : b.setDoc = true)
+    (hb' : Jd.DPL.memOK b = true) (HF : Jd.V1S.HashFaithful m o (subterms a ++ subterms b)) :
+    V1.diffM m a b = [] ↔ V1.equals m a b = true :=
+  Jd.V1K.v1_merge_diff_empty_iff_equals_setmodes F L M a b ha hb hb' HF
+
+/-- **C17, v1 SET + Setkeys in memory** -/
+theorem v1_diff_patch_setkeys (F : FloatEq0) (L : FloatLaws) {m : V1.Metas} {ks : List String}
+    (K : Jd.V1K.KMode m ks) (a b : Json)
+    (ha : a.setDoc = true) (hb : b.setDoc = true)
+    (ha' : Jd.DPL.memOK a = true) (hb' : Jd.DPL.memOK b = true) (H : Jd.V1K.KeysHyp m ks a b) :
+    ∃ r, V1.patchM a (V1.diffM m a b) = .ok r ∧ V1.equals m r b = true ∧
+      equivB [.set] r b = true ∧ V1.hashCode m r = V1.hashCode m b :=
+  Jd.V1K.v1_diff_patch_setkeys F L K a b ha hb ha' hb' H
+
+/-- … the diff is empty exactly when Equals holds -/
+theorem v1_diff_empty_iff_equals_setkeys (F : FloatEq0) (L : FloatLaws) {m : V1.Metas} {ks : List String}
+    (K : Jd.V1K.KMode m ks) (a b : Json)
+    (ha : a.setDoc = true) (hb : b.setDoc = true)
+    (ha' : Jd.DPL.memOK a = true) (hb' : Jd.DPL.memOK b = true) (H : Jd.V1K.KeysHyp m ks a b) :
+    V1.diffM m a b = [] ↔ V1.equals m a b = true :=
+  Jd.V1K.v1_diff_empty_iff_equals_setkeys F L K a b ha hb ha' hb' H
+
+/-- KF-C17-keyless on the model (replayed on Go): `[{"v":"1","w":"1"}]` → `[{"v":"2","w":"2"}]` under SET,
+    Setkeys(id): the printed diff is read back, and applying it to `a` fails -/
+theorem keyless_member_fails_through_text (nc : NumCodec)
+    (hc : Jd.V1S.CodecOK nc (V1.diffM Jd.V1K.Witness.m1 Jd.V1K.Witness.ha Jd.V1K.Witness.hb)) (text : String)
+    (hr : V1.renderM nc false (V1.liftDiff (V1.diffM Jd.V1K.Witness.m1 Jd.V1K.Witness.ha Jd.V1K.Witness.hb))
+      = .ok (some text)) :
+    ∃ d', V1.readDiffM nc text = .ok d' ∧ V1.patchM Jd.V1K.Witness.ha d' = .err :=
+  Jd.V1K.keyless_member_breaks_text nc hc text hr
 
 end Jd.Props.C17
